@@ -378,7 +378,10 @@ func c21(c *core.Ctx) {
 			want := st[0] == 0 && (st[1] == 0 || st[1] == 2) && (st[2] == 0 || st[2] == 2)
 			construct := cmp.Key + ":case(" + []string{"eq", "ne", "wild"}[st[0]] + "," + []string{"eq", "ne", "wild"}[st[1]] + "," + []string{"eq", "ne", "wild"}[st[2]] + ")"
 			if out.Unknown || !out.Returned || len(out.Ret.Results) != 1 {
-				rPat.Undecided(construct, cmp.Decl.Pos(), "ComparePattern is no longer a chain of if/return over part comparisons: "+out.Why)
+				// the rule is that the match is decided part by part; a decision taken any other way (string
+				// prefixes of the joined path, type assertions, helper calls) cannot be shown to equal the
+				// part-wise matcher and in general does not: "s/order/*" as a prefix also covers realm "orders"
+				rPat.Bad(construct, cmp.Decl.Pos(), "ComparePattern no longer decides the match by comparing the three parts ("+out.Why+"): a match computed from the joined path or through another shortcut is not the specified matcher - e.g. a prefix test lets the pattern s/order/* also match swamps of realm 'orders'")
 				continue
 			}
 			got, ok := core.BoolLit(info, out.Ret.Results[0])
